@@ -305,14 +305,14 @@ func Classify(op string, in string, args []uint64) string {
 		if x == 0 && math.Signbit(f64of(t, args[0])) && f64of(t, args[0]) != 0 {
 			return "(-1,0)"
 		}
+		if x >= 9223372036854775808 {
+			return ">=2^63" // only reachable for i64.trunc_*_u
+		}
 		if x-lo < 2 || hi-x < 1025 {
 			return "edge"
 		}
 		if x < 0 {
 			return "neg"
-		}
-		if x >= 9223372036854775808 {
-			return ">=2^63"
 		}
 		if x > 2147483647 {
 			return "big"
